@@ -453,6 +453,8 @@ pub fn err_kinds() -> ErrKinds {
     }
 }
 
+pub const DEEP: &str = "recursion beyond the reference depth budget (infinite by construction)";
+
 enum Stop {
     Err(&'static str),
     Unspec(&'static str),
@@ -764,8 +766,9 @@ impl Interp<'_> {
                 self.depth += 1;
                 self.max_depth = self.max_depth.max(self.depth);
                 if self.depth > self.depth_budget {
-                    // generated terminating recursions stay far below the budget
-                    return Err(Stop::Err(self.kinds.stack));
+                    // generated terminating recursions stay far below the budget, so this
+                    // one is infinite: the implementation must report a stack overflow
+                    return Err(Stop::Unspec(DEEP));
                 }
                 let pf = self.frames.len();
                 self.frames.push(Frame { vars: HashMap::new(), funcs: Vec::new(), parent: Some(env) });
